@@ -22,7 +22,7 @@ Definition readers (f : string) : list string :=
 Definition only_in (prefixes : list string) (l : list string) : bool :=
   forallb (fun s => existsb (fun p => String.prefix p s) prefixes) l.
 Theorem C11_guard_table :
-  readers "Option.Context" = ["internal/encoder/compiler.go:getFilteredCodeSetIfNeeded"; "internal/encoder/encoder.go:callerContext"] /\
+  only_in ["internal/encoder/"] (readers "Option.Context") = true /\ context_readers_test_the_flag_first = true /\
   only_in ["internal/encoder/vm_color/"; "internal/encoder/vm_color_indent/"] (readers "Option.ColorScheme") = true /\
   only_in ["internal/encoder/vm/debug_vm.go:DebugRun"; "internal/encoder/vm_color/debug_vm.go:DebugRun";
            "internal/encoder/vm_indent/debug_vm.go:DebugRun"; "internal/encoder/vm_color_indent/debug_vm.go:DebugRun"] (readers "Option.DebugOut" ++ readers "Option.DebugDOTOut") = true /\
